@@ -73,6 +73,11 @@ def weights_of(c):
         return float(w), [Fraction(w)] * N, [True] * N
     w = dec(c["w"], as_float=False)
     wv = c["wvalid"]
+    if c.get("wdtype") == "int64":
+        arr = numpy.array([int(x) for x in w], dtype=numpy.int64)
+        if wf == "array":
+            return arr, [Fraction(x) for x in w], wv
+        return (arr, numpy.array(wv, dtype=bool)), [Fraction(x) for x in w], wv
     arr = numpy.array([float(x) for x in w], dtype=float)
     if wf == "array":
         arr[~numpy.array(wv, dtype=bool)] = numpy.nan
